@@ -586,9 +586,16 @@ impl<'a> IrEmitter<'a> {
                         .iter()
                         .map(|s| self.emit_stmt(s))
                         .collect::<Result<_, _>>()?;
+                    // The body refers to the right-hand operand by the name the user gave the parameter.
+                    let rhs = method
+                        .params
+                        .iter()
+                        .find(|p| !p.is_self)
+                        .map(|p| format_ident!("{}", Self::escape_keyword(&p.name)))
+                        .unwrap_or_else(|| format_ident!("other"));
                     trait_impls.push(quote! {
                         impl PartialEq for #target_type {
-                            fn eq(&self, other: &Self) -> bool {
+                            fn eq(&self, #rhs: &Self) -> bool {
                                 #(#body_stmts)*
                             }
                         }
